@@ -3,11 +3,11 @@ package harness
 import (
 	"fmt"
 	"os"
-	"sync"
 	"path/filepath"
 	"regexp"
 	"strconv"
 	"strings"
+	"sync"
 
 	"pgregory.net/rapid"
 )
@@ -31,12 +31,12 @@ type C20Doc struct {
 	ListRoot bool   `json:"listroot"`
 }
 
-var invalidLiterals = []string{"tru", "1x", "bogus", "nul", "fals", "1.2.3", "--1", "1e", ".", "-", "e5", "NULL", "1,5"[:1] + "_", "0x", "é"}
+var invalidLiterals = []string{"tru", "1x", "bogus", "nul", "fals", "1.2.3", "--1", "1e", ".", "-", "e5", "NULL", "1,5"[:1] + "_", "0x", "é", "%d", "100%", "%s%s", "%!", "%v"}
 
 var (
-	badKeyStart = []string{"x", "1", ",", ":", "[", "{", "]", "é", "'", "n"}
-	badAfterKey = []string{"x", "=", "\"", ",", "}", "1", "é", ";"}
-	badAfterVal = []string{"x", "1", "]", ":", "[", "{", "é", "n"}
+	badKeyStart = []string{"x", "1", ",", ":", "[", "{", "]", "é", "'", "n", "%"}
+	badAfterKey = []string{"x", "=", "\"", ",", "}", "1", "é", ";", "%"}
+	badAfterVal = []string{"x", "1", "]", ":", "[", "{", "é", "n", "%"}
 )
 
 type c20gen struct {
@@ -301,8 +301,8 @@ func genC20(t *rapid.T) *C20Case {
 	// line numbers beyond 255 / 65535 (a counter that is too narrow): many newlines before the root
 	if oneIn(t, 25, "manylines") {
 		n := []int{255, 256, 257, 300, 1000}[drawIdx(t, 5, "nl")]
-		if Thorough() && drawBool(t, "huge") {
-			n = []int{65535, 65536, 70000}[drawIdx(t, 3, "nlh")]
+		if (Thorough() && drawBool(t, "huge")) || (!Thorough() && oneIn(t, 8, "huge")) {
+			n = []int{65535, 65536, 70000, 131072}[drawIdx(t, 4, "nlh")]
 		}
 		g.sb.WriteString(strings.Repeat("\n", n))
 	}
@@ -334,7 +334,9 @@ func genC20(t *rapid.T) *C20Case {
 	return &C20Case{Text: g.sb.String(), Pos: g.pos, ListRoot: root.K == KList, Kind: c20kindNames[kind], Depth: g.depthAt}
 }
 
-var lineRe = regexp.MustCompile(`on line (\d+)$`)
+// lineRe: the cited line is the number behind the LAST "on line" of the message (text echoed from the
+// document comes first; a message may go on after the number, e.g. with a column).
+var lineRe = regexp.MustCompile(`on line (\d+)`)
 
 func CheckC20(c *C20Case, st *Stats) error {
 	if err := checkC20Doc(c, st); err != nil {
@@ -402,11 +404,12 @@ func checkC20Doc(c *C20Case, st *Stats, fileTag ...string) error {
 			st.Count("accepted." + name)
 			return nil // conditional property: nothing is claimed when the text is not rejected
 		}
-		m := lineRe.FindStringSubmatch(err.Error())
-		if m == nil {
+		all := lineRe.FindAllStringSubmatch(err.Error(), -1)
+		if all == nil {
 			st.Count("no_line_cited." + name)
 			return nil
 		}
+		m := all[len(all)-1]
 		st.Count("line_cited." + name)
 		got, _ := strconv.Atoi(m[1])
 		if got != want {
@@ -442,6 +445,6 @@ func checkC20Doc(c *C20Case, st *Stats, fileTag ...string) error {
 
 func init() {
 	Register("C20",
-		"a generated tree is rendered with drawn whitespace/newlines at every token boundary (LF, CRLF, blank lines, occasionally a raw newline inside a string), optional text with newlines before the root (multi-line block comments, line comments, references to a multi-line environment variable, any bracket but the one that opens the root, e.g. an '[INFO]' log prefix before an object) (occasionally 255-1000 blank lines, thorough up to 70000), bare CR and CR LF layouts, and exactly one injected syntax error of a kind whose message cites a line (invalid literal in a list / as an object value, detected at its terminating delimiter; bad character where a key must start; bad character after a key; bad character after a nested container in an object), at a drawn nesting depth; the generator records the byte offset of the detecting character. Oracle: if the error text ends in 'on line N' then N == 1 + number of newline bytes before that offset; via ParseList, ParseObject and ParseFile. Non-trivial = at least one newline before the error and the error inside a nested container, or newlines in text before the root bracket. Distinct = distinct FNV-64a hash of the case JSON.",
+		"a generated tree is rendered with drawn whitespace/newlines at every token boundary (LF, CRLF, blank lines, occasionally a raw newline inside a string), optional text with newlines before the root (multi-line block comments, line comments, references to a multi-line environment variable, any bracket but the one that opens the root, e.g. an '[INFO]' log prefix before an object) (occasionally 255-1000 blank lines, now and then 65535-131072), bare CR and CR LF layouts, and exactly one injected syntax error of a kind whose message cites a line (invalid literal in a list / as an object value, detected at its terminating delimiter; bad character where a key must start; bad character after a key; bad character after a nested container in an object), at a drawn nesting depth; the generator records the byte offset of the detecting character. Oracle: if the error text says 'on line N' (the last such phrase counts) then N == 1 + number of newline bytes before that offset; via ParseList, ParseObject and ParseFile. Non-trivial = at least one newline before the error and the error inside a nested container, or newlines in text before the root bracket. Distinct = distinct FNV-64a hash of the case JSON.",
 		GenC20, CheckC20)
 }
